@@ -871,6 +871,23 @@ def _run_quad_rel(case):
         kwe['mask'] = mask
     obs = _call(centroid_quadratic, data, **kwe)
     case.close(obs, base, 'quadratic_start_pixel_as_documented', mech=dict(mech, mode=mode), start=[start[1], start[0]])
+    # count-like arguments as numpy signed / unsigned integer scalars: equal to the Python-int call
+    for arg in ('fit_boxsize', 'search_boxsize'):
+        if isinstance(kw.get(arg), int):
+            form = str(rng.choice(['uint8', 'uint16', 'uint64', 'int16', 'intp']))
+            case.note('axis3_count_form_' + arg + '_' + form)
+            kwc = dict(kw, **{arg: getattr(np, form)(kw[arg])})
+            if mask is not None:
+                kwc['mask'] = mask
+            mc = dict(mech, arg=arg, count_form='unsigned' if form.startswith('u') else 'signed')
+            try:
+                obs = _call(centroid_quadratic, data, **kwc)
+                case.close(obs, base, 'quadratic_count_like_numpy_scalar_equals_int', mech=mc)
+            except ValueError as exc:
+                if 'must have integer values' not in str(exc):
+                    raise
+                case.check(False, 'quadratic_count_like_numpy_scalar_equals_int', dict(mc, raised='ValueError'),
+                           msg=str(exc)[:100])
     case.nontrivial = n > 0 and mode == 'fit'
 
 
@@ -1348,6 +1365,23 @@ def _run_sources(case):
         x1, y1 = run(float(xp[k]), float(yp[k]))
         judged(np.array([x1[0], y1[0]]), np.array([xo[k], yo[k]]), 'sources_single_equals_batched', mech,
                [run0, (xp[k:k + 1], yp[k:k + 1], (x1, y1))], index=k)
+    # (7) count-like box_size as numpy signed / unsigned integer scalar: equal to the Python-int call
+    if isinstance(fkw.get('box_size'), int) and 'footprint' not in fkw:
+        form = str(rng.choice(['uint8', 'uint16', 'uint64', 'int16', 'intp']))
+        case.note('axis3_count_form_box_size_' + form)
+        mc = dict(base_mech, arg='box_size', count_form='unsigned' if form.startswith('u') else 'signed')
+        fkw_keep = fkw
+        fkw = dict(fkw_keep, box_size=getattr(np, form)(fkw_keep['box_size']))
+        try:
+            xb, yb = run(xp.copy(), yp.copy())
+            case.close(np.array([xb, yb]), np.array([xo, yo]), 'sources_count_like_numpy_scalar_equals_int', mech=mc)
+        except ValueError as exc:
+            if 'must have integer values' not in str(exc):
+                raise
+            case.check(False, 'sources_count_like_numpy_scalar_equals_int', dict(mc, raised='ValueError'),
+                       msg=str(exc)[:100])
+        finally:
+            fkw = fkw_keep
     # (6) (vii) the same numbers in a narrow / unsigned image dtype
     feas = _feasible_dtypes(data)
     if feas and fname not in ('centroid_1dg', 'centroid_2dg'):     # Gaussian fits: judged in gauss_rel (convergence guard)
